@@ -83,9 +83,10 @@ def compress_code(in_p):
 
     if b'_update60' in in_p and len(in_p) < PICO8_CODE_ALLOC_SIZE - (
             len(PICO8_FUTURE_CODE2) + 1):
+        # (Not "+=": that would extend a caller's bytearray in place.)
         if in_p[-1] != b' '[0] and in_p[-1] != b'\n'[0]:
-            in_p += b'\n'
-        in_p += PICO8_FUTURE_CODE2
+            in_p = in_p + b'\n'
+        in_p = in_p + PICO8_FUTURE_CODE2
 
     out = bytearray()
 
